@@ -535,7 +535,7 @@ class C06Engine(object):
         self.known = report.load_known("C06")
         self.builds = {}
         self.stats = {"sequences": 0, "ops": 0, "inconclusive": 0, "violating": 0, "harness_errors": 0,
-                      "per_driver": {}, "op_kinds": {}, "faults": {}, "inconclusive_samples": [],
+                      "per_driver": {}, "op_kinds": {}, "faults": {}, "reach": {}, "inconclusive_samples": [],
                       "build_errors": {}}
         self.states = set()
         self.samples = []
@@ -594,6 +594,10 @@ class C06Engine(object):
         st["ops"] += nchk
         d["ops"] += nchk
         prev = None
+        exps = M.expectations(spec["driver"], spec["ops"]) or []
+        for e in exps[:nchk]:
+            for what in e.get("reach", []):
+                st["reach"][what] = st["reach"].get(what, 0) + 1
         for op in spec["ops"][:max(nchk, 1)]:
             st["op_kinds"][op[0]] = st["op_kinds"].get(op[0], 0) + 1
             if op[0] in ("bad_vec_sum", "bad_arg", "bad_arr_sum", "nomem", "item_delete", "item_release",
@@ -748,6 +752,12 @@ class C06Engine(object):
             "per_driver": st["per_driver"],
             "op_kinds_executed": st["op_kinds"],
             "fault_kinds_fired": st["faults"],
+            "reach_probes": st["reach"],
+            "probes_stuck_at_zero": [p for p in ("delete_again", "release_again", "release_library_owned",
+                                                 "capsule_reused_while_owning", "capsule_delete_again",
+                                                 "capsule_delete_empty", "python_last_reference_dropped",
+                                                 "python_borrowed_wrapper_dropped", "string_exact_fit",
+                                                 "string_zero_length", "string_truncated") if not st["reach"].get(p)],
             "variants_built": {("v%d" % k): {"ok": b.ok, "meta": b.meta} for k, b in self.builds.items()},
             "build_errors": st["build_errors"],
             "inconclusive_sequences": st["inconclusive"],
